@@ -68,7 +68,7 @@ macro_rules! h_tovec {
             let n = ra.len;
             let nb = nbytes(n);
             wk!($kind, n % 8 != 0 && ra.v.bit(n - 1), "length not a multiple of 8 with the top bit set");
-            wk!($kind, n % 8 == 0 && n > 8 && is_big(e), "several whole bytes, big endian");
+            wk!($kind, n % 8 == 0 && n > 0 && is_big(e), "whole bytes, big endian");
             wk!($kind, n == 0, "empty vector");
             w!(is_big(e) && (n == 0 || ra.v.bit(n - 1)), "big endian, top bit set (or empty)");
             w!(!is_big(e) && (n == 0 || ra.v.bit(n - 1)), "little endian, top bit set (or empty)");
@@ -93,7 +93,7 @@ macro_rules! h_write {
             let nb = nbytes(n);
             assert!(nb + 1 <= $k, "HARNESS: sink smaller than the largest serialisation plus one");
             wk!($kind, n % 8 != 0 && ra.v.bit(n - 1), "length not a multiple of 8 with the top bit set");
-            wk!($kind, n % 8 == 0 && n > 8 && is_big(e), "several whole bytes, big endian");
+            wk!($kind, n % 8 == 0 && n > 0 && is_big(e), "whole bytes, big endian");
             wk!($kind, n == 0, "empty vector");
             w!(is_big(e) && (n == 0 || ra.v.bit(n - 1)), "big endian, top bit set (or empty)");
             w!(!is_big(e) && (n == 0 || ra.v.bit(n - 1)), "little endian, top bit set (or empty)");
